@@ -353,3 +353,7 @@ pub(crate) use enumerated::assign_enumeral_numbers as verif_assign_enumeral_numb
 #[cfg(librasn_compiler_verif)]
 #[allow(unused_imports)]
 pub(crate) use enumerated::verif_hook as verif_hook_enumerated;
+
+#[cfg(librasn_compiler_verif)]
+#[allow(unused_imports)]
+pub(crate) use sequence::verif_hook as verif_hook_sequence;
